@@ -476,7 +476,7 @@ pub fn run_c04(thorough: bool) -> i32 {
     }
     // ... and on the crowded batches (more than a hundred requesters in one batch) of the withdrawal search
     for mut p in ledger::plans("C05", false).into_iter().filter(|p| p.sc.name.ends_with("+deep")) {
-        p.sc.seeds.retain(|(n, _)| n.ends_with("many_requesters"));
+        p.sc.seeds.retain(|(n, _)| n.ends_with("many_requesters") || n.ends_with("crowd"));
         p.sc.name = format!("c04-{}", p.sc.name);
         p.sc.props = vec!["C04"];
         let lim = Limits { max_depth: p.depth, max_states: 3_000_000, max_wall_s: 120.0 };
